@@ -463,14 +463,15 @@ def run(ctx):
     rc2, model_tables = ctx.run_sharded(drv, inputs, timeout=1500)
     disagreements = 0
     rows_compared = 0
+    table_reports = []   # reported after the executions: a failing verdict found there is the failing input
     for k, (rt, mt) in enumerate(zip(real_tables, model_tables)):
         rows_compared += rt.count("(row")
         if rt != mt:
             disagreements += 1
             if disagreements <= 4:
                 li, name = owner[k]
-                ctx.violation({"kind": "correspondence-broken", "correspondence": "Compat.v vs compatibility.rs tables (%s)" % name,
-                               "case": lines[li], "input": inputs[k][:3000], "real": rt[:3000], "model": mt[:3000]}, no_input=True)
+                table_reports.append({"kind": "correspondence-broken", "correspondence": "Compat.v vs compatibility.rs tables (%s)" % name,
+                                      "case": lines[li], "input": inputs[k][:3000], "real": rt[:3000], "model": mt[:3000]})
     if untyped_entry:
         li, name = untyped_entry[0]
         f = ctx.findings.get("F70c08")
@@ -573,6 +574,10 @@ def run(ctx):
             obj = {"kind": "impl-violation", "statement": "pinned end-to-end probe: expected verdict %s" % want, "case": src, "real_output": v, "matched_signature": key}
             if report_finding(ctx, obj, key, known_hits):
                 unmatched += 1
+    for obj in table_reports:
+        # the model is proved to be the relation (table_is_relation): a differing real row is a wrong row; it
+        # comes with a failing input when some executed program shows a wrong verdict
+        ctx.violation(obj, no_input=(run_failures == 0 and e2e_mismatch == 0))
     # ------------------------------------------------------------------ evidence
     seen = set()
     nontrivial = 0
